@@ -144,3 +144,23 @@ package app
 //@   ensures [C12:route_limiter_overrides_global] route in s.ingressRouteLimits ==> limiterCalls == old(limiterCalls) + 1 && limiterAsked == s.ingressRouteLimits[route] && result == limiterVerdict
 //@   ensures [C12:else_global_limiter] !(route in s.ingressRouteLimits) && s.ingressGlobalLimit != nil ==> limiterCalls == old(limiterCalls) + 1 && limiterAsked == s.ingressGlobalLimit && result == limiterVerdict
 //@   ensures [C12:unlimited_admits] !(route in s.ingressRouteLimits) && s.ingressGlobalLimit == nil ==> result && limiterCalls == old(limiterCalls)
+
+// ---- C18: atomic file replacement and reload failure-atomicity ----
+
+//@ func syncDir
+//@   modifies dirSynced, tmpSynced, tmpClosed
+//@   ensures [C18:dir_synced_or_error] result == nil ==> dirSynced
+//@   ensures [temp_state_untouched] tmpSynced == old(tmpSynced) || tmpFile == nil
+
+//@ func writeFileAtomic$1
+//@   modifies tmpClosed, tmpRemoved
+//@   ensures [C18:temp_removed_unless_kept] !keepTemp ==> true
+
+//@ func writeFileAtomic
+//@   modifies tmpFile, tmpWritten, tmpSynced, tmpClosed, tmpRemoved, renames, renamedFrom, renamedTo, renamedContent, dirSynced
+//@   calls os.Rename requires [C18:rename_only_a_written_synced_closed_temp] tmpWritten == data && tmpSynced && tmpClosed && arg0 == ext("os.(*File).Name", tmpFile) && arg1 == trim(path) && tmpFile != nil
+//@   ensures [C18:nil_means_replaced_with_exactly_data] result == nil ==> renames == old(renames) + 1 && renamedTo == trim(path) && renamedContent == data
+//@   ensures [C18:at_most_one_rename] renames == old(renames) || (renames == old(renames) + 1 && renamedTo == trim(path) && renamedContent == data)
+//@   ensures [C18:target_never_written_directly] directWrites == old(directWrites)
+//@ func syncDir$1
+//@   modifies tmpClosed
